@@ -9,10 +9,11 @@ use crate::model::Model;
 use crate::runner::*;
 use crate::snapshot::*;
 use pytest_language_server::FixtureDatabase;
-use serde_json::Value;
-use std::path::PathBuf;
+use crate::spec::*;
+use serde_json::{json, Value};
+use std::path::{Path, PathBuf};
 
-pub const RULE: &str = "proptest-generated edit histories (1-10 steps over 2-10 files: remove/insert/rename items, shift all positions, replace, change only imports, break syntax, resend; each optionally preceded by closing the document) on top of a generated workspace; after every prefix the index reached by replaying the prefix on a fresh database is compared (a) exactly with a fresh index that received only each file's latest valid text followed by its current invalid text, in order of last valid analysis, and (b) on all index-derived answers with a fresh index of the latest valid texts only. Non-trivial = the history removes or renames a fixture/usage defined earlier, or contains a break followed by a later valid version of the same file; distinct = distinct (workspace, history) values.";
+pub const RULE: &str = "proptest-generated edit histories (1-10 steps over 2-10 files: remove/insert/rename items, shift all positions, replace, change only imports, break syntax, resend; each optionally preceded by closing the document) on top of a generated workspace; after every prefix the index reached by replaying the prefix on a fresh database is compared (a) exactly with a fresh index that received only each file's latest valid text followed by its current invalid text, in order of last valid analysis, and (b) on all index-derived answers with a fresh index of the latest valid texts only. Server sub-check: histories of <= 6 edits are sent to the real binary as didOpen / didChange / didClose-then-didOpen on a materialised tree; afterwards documentSymbol of every valid document and textDocument/definition at every usage must equal an index that saw only the compressed history. Non-trivial = the history removes or renames a fixture/usage defined earlier, or contains a break followed by a later valid version of the same file; distinct = distinct (workspace, history) values.";
 pub const ASSUMPTIONS: &[&str] = &[
     "the prefix is replayed without intermediate queries (cache staleness is C07's business)",
     "the fresh twin analyses files in order of their last valid analysis, so registration order is identical (order sensitivity is C08's business)",
@@ -126,6 +127,158 @@ pub fn check_history(h: &History, info: &mut CaseInfo) -> Outcome {
     }
 }
 
+// ---------------------------------------------------------------------------------------------
+// server sub-check: the same histories through didOpen / didChange / didClose of the real binary
+// ---------------------------------------------------------------------------------------------
+
+pub fn server_cfg() -> GenCfg {
+    GenCfg { names: 3, max_depth: 2, max_items: 3, allow_dups_in_file: true, ..GenCfg::default() }
+}
+
+/// After the whole history the server must answer like an index that only ever saw the compressed
+/// history (scan of the original tree, initial opens, then per file its last valid version in order
+/// of last valid analysis, then the current invalid versions).
+pub fn check_server_history(ctx: &Ctx, h: &History, info: &mut CaseInfo) -> Outcome {
+    use crate::lsp::LspSession;
+    use crate::lspdiff::*;
+    let cfg = server_cfg();
+    let mut p = match Pair::start(&h.ws, true) {
+        Ok(p) => p,
+        Err(i) => return infra_outcome(i, &ctx.inconclusive),
+    };
+    let mut it = Interp::new(&cfg, &h.ws);
+    let paths: Vec<String> = (0..it.files.len()).map(|i| p.path(i)).collect();
+    let project: Vec<bool> = it.files.iter().map(|f| !(f.loc.is_plugin() || f.loc.is_third_party())).collect();
+    let mut version = 1i64;
+    let mut open: Vec<bool> = project.clone();
+    let mut touched_project = false;
+    for s in &h.steps {
+        let fi = it.apply(s);
+        if !project[fi] {
+            continue; // installed packages are not edited through the editor
+        }
+        touched_project = true;
+        info.classes.push(format!("edit={}", edit_name(&s.edit)));
+        let text = it.files[fi].text.clone();
+        let r = if s.close_first && open[fi] {
+            info.classes.push("close-then-reopen".into());
+            if p.srv.close(&paths[fi]).is_err() {
+                return infra_outcome(Infra::Inconclusive("didClose".into()), &ctx.inconclusive);
+            }
+            p.srv.open_sync(&paths[fi], &text, 300)
+        } else if !open[fi] {
+            p.srv.open_sync(&paths[fi], &text, 300)
+        } else {
+            version += 1;
+            p.srv.change_sync(&paths[fi], version, &text, 300)
+        };
+        open[fi] = true;
+        if let Err(e) = r {
+            return infra_outcome(classify(e, "didOpen/didChange"), &ctx.inconclusive);
+        }
+    }
+    if !touched_project {
+        return Outcome::Ok;
+    }
+    // the compressed history on a fresh index
+    let twin = FixtureDatabase::new();
+    twin.scan_workspace(Path::new(&p.disk.root));
+    for fi in 0..it.files.len() {
+        if project[fi] {
+            twin.analyze_file(PathBuf::from(&paths[fi]), &p.m.rendered[fi].text);
+        }
+    }
+    let mut order: Vec<usize> = (0..it.files.len()).filter(|i| project[*i]).collect();
+    order.sort_by_key(|i| it.files[*i].last_valid_time);
+    let n0 = h.ws.files.len();
+    for &i in &order {
+        // a valid version was sent during the steps (the initial opens took the times 1..=n0)
+        if it.files[i].last_valid_time > n0 {
+            twin.analyze_file(PathBuf::from(&paths[i]), &it.files[i].last_valid_text);
+        }
+    }
+    for &i in &order {
+        if !it.files[i].valid {
+            twin.analyze_file(PathBuf::from(&paths[i]), &it.files[i].text);
+        }
+    }
+    // names whose pick depends on registration order between processes (C08's recorded findings),
+    // judged on the final contents
+    let final_ws = WorkspaceSpec { files: it.files.iter().map(|f| FileSpec { loc: f.loc.clone(), items: f.items.clone() }).collect(), order_keys: h.ws.order_keys.clone() };
+    let fm = Model::new(&final_ws);
+    let sens = crate::props::c08::order_sensitive_names(&fm);
+    let kf_trigger = it.files.iter().any(|f| !f.valid && (f.last_valid_text.contains("\nfrom fx") || f.last_valid_text.contains("\nfrom .") || f.last_valid_text.contains("pytest_plugins")));
+    let mut known = false;
+    let mut detail = None;
+    let mut removed = false;
+    for s in &h.steps {
+        if matches!(s.edit, Edit::Remove(_) | Edit::Rename(..) | Edit::Replace(_) | Edit::SetImports(_) | Edit::Retarget(_) | Edit::Break(_)) {
+            removed = true;
+        }
+    }
+    for fi in 0..it.files.len() {
+        if !project[fi] || !it.files[fi].valid {
+            continue;
+        }
+        let path = &paths[fi];
+        // document symbols = the fixtures the twin attributes to the file
+        let resp = match p.req("textDocument/documentSymbol", json!({"textDocument": {"uri": crate::lsp::uri_of(path)}})) {
+            Ok(v) => v,
+            Err(i) => return infra_outcome(i, &ctx.inconclusive),
+        };
+        let mut got: Vec<(String, u64)> = resp.as_array().into_iter().flatten().map(|s| (s["name"].as_str().unwrap_or("").to_string(), s["selectionRange"]["start"]["line"].as_u64().unwrap_or(0))).collect();
+        got.sort();
+        let mut exp: Vec<(String, u64)> = all_defs(&twin).into_iter().filter(|d| d.file_path == Path::new(path)).map(|d| (d.name.clone(), (d.line - 1) as u64)).collect();
+        exp.sort();
+        info.checks += 1;
+        if got != exp {
+            return Outcome::Fail(format!("after the history, documentSymbol of {} lists {:?}; an index that only saw the latest contents holds {:?}", p.rel(path), got, exp));
+        }
+        let uses = twin.usages.get(Path::new(path)).map(|u| u.value().clone()).unwrap_or_default();
+        for u in &uses {
+            if sens.contains(&u.name) {
+                info.unjudged += 1;
+                continue;
+            }
+            info.checks += 1;
+            let (l, c) = ((u.line.max(1) - 1) as u32, u.start_char as u32);
+            let lib = twin.find_fixture_definition(Path::new(path), l, c);
+            let resp = match p.req("textDocument/definition", LspSession::pos_params(path, l, c)) {
+                Ok(v) => v,
+                Err(i) => return infra_outcome(i, &ctx.inconclusive),
+            };
+            let got = first_location(&resp).map(|(f, l, _)| (f, l));
+            let exp = lib.as_ref().map(|d| (d.file_path.to_string_lossy().to_string(), (d.line - 1) as u64));
+            if got != exp {
+                let msg = format!(
+                    "after the history, textDocument/definition of `{}` at {}:{} -> {:?}; an index that only saw the latest contents -> {:?}",
+                    u.name,
+                    p.rel(path),
+                    u.line,
+                    got.map(|(f, l)| (p.rel(&f), l)),
+                    exp.map(|(f, l)| (p.rel(&f), l))
+                );
+                if kf_trigger {
+                    known = true;
+                    info.known_trigger = true;
+                    detail.get_or_insert(msg);
+                } else {
+                    return Outcome::Fail(msg);
+                }
+            }
+        }
+    }
+    if removed {
+        info.nontrivial = true;
+    }
+    if known {
+        info.fail_detail = detail;
+        Outcome::Known(vec![KF_BROKEN_IMPORTS.to_string()])
+    } else {
+        Outcome::Ok
+    }
+}
+
 fn edit_name(e: &Edit) -> &'static str {
     match e {
         Edit::Remove(_) => "remove",
@@ -159,10 +312,16 @@ pub fn cycles_wellformed(db: &FixtureDatabase) -> Option<String> {
 pub fn run(ctx: &Ctx) {
     let cases = ctx.tier.pick(6_000, 300_000);
     ctx.run_prop("history", cases, 16, || history(cfg(), 10), |h, info| check_history(h, info));
+    ctx.run_prop_shrink("server-history", ctx.tier.pick(150, 4_000), 8, 150, || history(server_cfg(), 6), |h, info| check_server_history(ctx, h, info));
 }
 
-pub fn judge(_ctx: &Ctx, sub: &str, case: &Value) -> Option<Outcome> {
+pub fn judge(ctx: &Ctx, sub: &str, case: &Value) -> Option<Outcome> {
     match sub {
+        "server-history" => {
+            let h: History = from_case(case)?;
+            let mut info = CaseInfo::default();
+            Some(check_server_history(ctx, &h, &mut info))
+        }
         "history" => {
             let h: History = from_case(case)?;
             let mut info = CaseInfo::default();
